@@ -958,6 +958,9 @@ def scenarios_construct(seed, n):
                 noinit['spec']['exclude'] = True
         if r.random() < 0.2:
             d['hook'] = r.choice(['raise_always', 'reject_neg:' + fnames[0]])
+        elif r.random() < 0.15:
+            # a hook that reads the record of explicitly set fields (the same record on every path, while the hook runs)
+            d['hook'] = 'need_set:%d' % r.randint(0, 3)
         elif d['opts'].get('frozen') is False and r.random() < 0.6:
             # a validation hook that NORMALISES a field by plain assignment (allowed: the class is not frozen)
             d['hook'] = 'assign:' + r.choice([f['name'] for f in d['fields'] if f['ty'] != 'KW_ONLY'])
@@ -2168,7 +2171,7 @@ def scenarios_inherited_hook(seed, n, op='try_collect'):
         r = ge.r
         generic = r.random() < 0.3
         base = ge.fresh('B')
-        hook = r.choice(['reject_neg:x', 'reject_neg:x', 'raise_always'])
+        hook = r.choice(['reject_neg:x', 'reject_neg:x', 'raise_always', 'need_set:1', 'need_set:2'])
         bd = {'name': base, 'fields': [{'name': 'x', 'ty': 'int'}], 'opts': {'in_format': r.choice([['struct'], ['tuple', 'struct']])}, 'hook': hook}
         if generic:
             bd['tvars'] = ['T']
